@@ -2,6 +2,8 @@ package main
 
 import (
 	"fmt"
+	"go/ast"
+	"go/constant"
 	"go/parser"
 	"go/types"
 	"sort"
@@ -125,6 +127,9 @@ func (r *funcRun) ret(st *State, x *ssa.Return) {
 	}
 	for _, g := range r.c.Ghosts {
 		if g.Expr == "" {
+			c := &evalCtx{r: r, st: st, old: r.old, vars: r.baseVars(st), src: r.c.Src}
+			t := c.parseType(g.Type)
+			extra[g.Name] = tval{r.v.freshValue(st, "gh_"+g.Name, t), t}
 			continue
 		}
 		vars := r.baseVars(st)
@@ -132,7 +137,14 @@ func (r *funcRun) ret(st *State, x *ssa.Return) {
 			vars[k] = v
 		}
 		c := &evalCtx{r: r, st: st, old: r.old, vars: vars, src: r.c.Src}
-		extra[g.Name] = c.evalStr(g.Expr)
+		extra[g.Name] = r.evalOrFresh(c, g)
+	}
+	for _, ax := range r.c.AtExit {
+		vars := r.baseVars(st)
+		for kk, v := range extra {
+			vars[kk] = v
+		}
+		r.atExit(st, ax, vars)
 	}
 	for k, e := range r.c.Ensures {
 		vars := r.baseVars(st)
@@ -141,12 +153,10 @@ func (r *funcRun) ret(st *State, x *ssa.Return) {
 		}
 		r.emitGoal(st, "post", "="+clauseID(e, k), e.Props, e.Expr, nil, r.old, vars, e.Src)
 	}
-	// frame: components not in modifies are unchanged
+	// frame: components not in modifies are unchanged; components modified "at" some
+	// references are unchanged at every other reference allocated at entry
 	if r.c.HasMod && r.c.Trusted == "" {
-		allowed := map[string]bool{}
-		for _, m := range r.v.expandMods(r.c.Modifies) {
-			allowed[m] = true
-		}
+		whole, targets := r.modTargets(st, r.c, r.baseVars(st), r.old, r.old)
 		allocs := map[string]bool{}
 		for _, m := range r.v.expandMods(r.c.Allocates) {
 			allocs[m] = true
@@ -157,7 +167,7 @@ func (r *funcRun) ret(st *State, x *ssa.Return) {
 		}
 		sort.Strings(comps)
 		for _, comp := range comps {
-			if allowed[comp] || strings.HasPrefix(comp, "Cell[") || strings.HasPrefix(comp, "IterVisited") {
+			if whole[comp] || strings.HasPrefix(comp, "Cell[") || strings.HasPrefix(comp, "IterVisited") {
 				continue
 			}
 			sig := st.compSig[comp]
@@ -166,25 +176,58 @@ func (r *funcRun) ret(st *State, x *ssa.Return) {
 			if cur == old {
 				continue
 			}
-			// allocated part of the component must be unchanged: for components indexed by
-			// reference, only references that existed at entry matter
-			var g Term
-			if allocs[comp] {
-				g = r.frameGoal(comp, sig, cur, old)
-			} else {
-				g = mk(SBool, "(= %s %s)", cur, old)
-			}
+			_ = allocs
+			g := r.frameFormula(sig, cur, old, r.old.alloc, targets[comp], false)
 			r.emit(st, "frame", "="+comp, nil, g, r.c.Src)
 		}
 	}
 }
 
-// frameGoal: the component is unchanged on every reference allocated at entry.
-func (r *funcRun) frameGoal(comp, sig, cur, old string) Term {
+// modTargets evaluates the modifies clause of a contract: components modifiable
+// as a whole, and per component the references at which it may change.
+func (r *funcRun) modTargets(st *State, c *Contract, vars map[string]tval, cur, old *HeapSnap) (map[string]bool, map[string][]Term) {
+	whole := map[string]bool{}
+	targets := map[string][]Term{}
+	for _, m := range c.Modifies {
+		comp, at := splitMod(m)
+		comps := r.v.expandMods([]string{comp})
+		if at == "" {
+			for _, cc := range comps {
+				whole[cc] = true
+			}
+			continue
+		}
+		ctx := &evalCtx{r: r, st: st, cur: cur, old: old, vars: vars, src: c.Src}
+		tv := ctx.evalStr(at)
+		t, ok := tv.V.(Term)
+		if !ok || t.Sort != SInt {
+			panic(specErr{fmt.Sprintf("%s: modifies target %q is not a reference", c.Src, at)})
+		}
+		for _, cc := range comps {
+			targets[cc] = append(targets[cc], t)
+		}
+	}
+	for cc := range whole {
+		delete(targets, cc)
+	}
+	return whole, targets
+}
+
+// frameFormula: the component agrees with its old version at every reference
+// allocated in the old state other than the targets.
+func (r *funcRun) frameFormula(sig, cur, old string, alloc Term, targets []Term, pattern bool) Term {
 	if !strings.HasPrefix(sig, "(Array Int ") {
 		return mk(SBool, "(= %s %s)", cur, old)
 	}
-	return mk(SBool, "(forall ((fr Int)) (=> (and (<= 0 fr) (<= fr %s)) (= (select %s fr) (select %s fr))))", r.old.alloc.S, cur, old)
+	conds := []Term{mk(SBool, "(<= 0 fr)"), mk(SBool, "(<= fr %s)", alloc.S)}
+	for _, t := range targets {
+		conds = append(conds, mk(SBool, "(not (= fr %s))", t.S))
+	}
+	body := Imp(And(conds...), mk(SBool, "(= (select %s fr) (select %s fr))", cur, old))
+	if pattern {
+		return mk(SBool, "(forall ((fr Int)) (! %s :pattern ((select %s fr))))", body.S, cur)
+	}
+	return mk(SBool, "(forall ((fr Int)) %s)", body.S)
 }
 
 func (v *Verifier) contractForCall(cc *ssa.CallCommon) *Contract {
@@ -217,9 +260,17 @@ func (v *Verifier) contractFor(fn *ssa.Function) *Contract {
 func (v *Verifier) expandMods(mods []string) []string {
 	var out []string
 	for _, m := range mods {
+		m, _ = splitMod(m)
 		if alias, ok := v.modAliases[m]; ok {
 			out = append(out, alias...)
 			continue
+		}
+		if _, ok := v.sigOfComp(m); !ok {
+			if leaves := v.structLeaves(m); len(leaves) > 0 {
+				v.modAliases[m] = leaves
+				out = append(out, leaves...)
+				continue
+			}
 		}
 		out = append(out, m)
 	}
@@ -271,6 +322,9 @@ func (r *funcRun) call(st *State, cc *ssa.CallCommon, instr ssa.Instruction, res
 	}
 	if c != nil && len(c.Params) > 0 {
 		names = c.Params
+	}
+	if callee == "fmt.Errorf" {
+		return r.errorf(st, cc, args)
 	}
 	if c == nil {
 		// no contract: everything may change, result unconstrained
@@ -339,14 +393,8 @@ func (r *funcRun) applyContract(st *State, c *Contract, callee string, names []s
 		r.note("call of " + callee + " has no modifies clause: whole heap havocked")
 		st.havocAll()
 	} else {
-		for _, m := range r.v.expandMods(c.Modifies) {
-			if m == everything {
-				st.havocAll()
-				break
-			}
-			st.havocComp(m)
-		}
-		for _, m := range r.v.expandMods(c.Allocates) {
+		whole, targets := r.modTargets(st, c, vars, pre, pre)
+		sigOf := func(m string) (string, bool) {
 			sig, known := st.compSig[m]
 			if !known {
 				if sg, found := r.v.sigOfComp(m); found {
@@ -354,14 +402,42 @@ func (r *funcRun) applyContract(st *State, c *Contract, callee string, names []s
 					sig, known = sg, true
 				}
 			}
-			if !known || !strings.HasPrefix(sig, "(Array Int ") {
+			return sig, known
+		}
+		for _, m := range sortedBoolKeys(whole) {
+			if m == everything {
+				st.havocAll()
+				break
+			}
+			st.havocComp(m)
+		}
+		framed := map[string][]Term{}
+		for m, tg := range targets {
+			framed[m] = tg
+		}
+		for _, m := range r.v.expandMods(c.Allocates) {
+			if !whole[m] {
+				if _, ok := framed[m]; !ok {
+					framed[m] = nil
+				}
+			}
+		}
+		var fk []string
+		for m := range framed {
+			fk = append(fk, m)
+		}
+		sort.Strings(fk)
+		for _, m := range fk {
+			sig, known := sigOf(m)
+			if !known {
 				st.havocComp(m)
+				r.note("frame of " + m + " lost at call of " + callee + ": component sort unknown")
 				continue
 			}
 			before := st.comp(m, sig)
 			st.havocComp(m)
 			after := st.comp(m, sig)
-			st.cmds = append(st.cmds, fmt.Sprintf("(assert (forall ((fr Int)) (! (=> (and (<= 0 fr) (<= fr %s)) (= (select %s fr) (select %s fr))) :pattern ((select %s fr)))))", pre.alloc.S, after, before, after))
+			st.assume(r.frameFormula(sig, after, before, pre.alloc, framed[m], true))
 		}
 		if !c.Pure {
 			st.bumpAlloc()
@@ -395,6 +471,8 @@ func (r *funcRun) applyContract(st *State, c *Contract, callee string, names []s
 	for _, g := range c.Ghosts {
 		t := ctx.parseType(g.Type)
 		vars[g.Name] = tval{r.v.freshValue(st, "gh_"+g.Name, t), t}
+		st.names[shortName(callee)+"_"+g.Name] = vars[g.Name].V
+		st.ntypes[shortName(callee)+"_"+g.Name] = t
 	}
 	for _, e := range c.Ensures {
 		ctx.src = e.Src
@@ -665,4 +743,152 @@ func (r *funcRun) emitGoal(st *State, kind, detail string, props []string, expr 
 		}
 		r.emit(sc, kind, d, props, g, src)
 	}
+}
+
+func sortedBoolKeys(m map[string]bool) []string {
+	var out []string
+	for k := range m {
+		out = append(out, k)
+	}
+	sort.Strings(out)
+	return out
+}
+
+// atExit performs a definitional ghost update target[var] := expr(var).
+func (r *funcRun) atExit(st *State, ax AtExit, vars map[string]tval) {
+	ctx := &evalCtx{r: r, st: st, old: r.old, vars: vars, src: ax.Src}
+	e, err := parser.ParseExpr(ax.Target)
+	if err != nil {
+		ctx.fail("bad atexit target %q", ax.Target)
+	}
+	sel, ok := e.(*ast.SelectorExpr)
+	if !ok {
+		ctx.fail("atexit target must be a ghost field selector")
+	}
+	base := ctx.eval(sel.X)
+	pt, ok := base.T.Underlying().(*types.Pointer)
+	if !ok {
+		ctx.fail("atexit target base must be a pointer")
+	}
+	ft, _, ok := ctx.fieldOf(pt.Elem(), sel.Sel.Name)
+	if !ok || !r.v.ghostArrays[ft] {
+		ctx.fail("atexit target %s is not a ghost array field", ax.Target)
+	}
+	mt := ft.(*types.Map)
+	ks, _ := r.v.leafSort(mt.Key())
+	as, _ := r.v.leafSort(ft)
+	A := st.freshConst("ghost_"+sel.Sel.Name, as)
+	*st.fresh++
+	q := fmt.Sprintf("q_%s%d", ax.Var, *st.fresh)
+	body := ctx.bind(ax.Var, tval{Term{S: q, Sort: ks}, mt.Key()}).evalStr(ax.Expr)
+	bt := body.V.(Term)
+	st.cmds = append(st.cmds, fmt.Sprintf("(assert (forall ((%s %s)) (! (= (select %s %s) %s) :pattern ((select %s %s)))))", q, string(ks), A.S, q, bt.S, A.S, q))
+	loc := &Loc{Prefix: r.v.structName(pt.Elem()) + "." + sel.Sel.Name, Idx: []Term{base.V.(Term)}, Type: ft}
+	r.v.writeLoc(st, loc, A)
+}
+
+// errorf models fmt.Errorf: a fresh non-nil error which wraps the operand of %w, if any.
+func (r *funcRun) errorf(st *State, cc *ssa.CallCommon, args []Value) Value {
+	e := st.freshConst("errorf", SInt)
+	st.assume(Lt(IntLit(0), e))
+	var names []string
+	for _, g := range r.v.errGlobals {
+		names = append(names, sym("err."+g))
+	}
+	for _, g := range extErrGlobals {
+		names = append(names, sym("err."+g))
+	}
+	for _, n := range names {
+		st.assume(Not(Ident(e, Term{S: n, Sort: SInt})))
+	}
+	wrapped := Term{}
+	if fc, ok := cc.Args[0].(*ssa.Const); ok && fc.Value != nil {
+		format := constant.StringVal(fc.Value)
+		// index of the %w verb among the verbs
+		k := -1
+		n := 0
+		for i := 0; i+1 < len(format); i++ {
+			if format[i] != '%' {
+				continue
+			}
+			if format[i+1] == '%' {
+				i++
+				continue
+			}
+			j := i + 1
+			for j < len(format) && strings.ContainsRune("+-# 0123456789.", rune(format[j])) {
+				j++
+			}
+			if j < len(format) {
+				if format[j] == 'w' {
+					k = n
+				}
+				n++
+			}
+			i = j
+		}
+		if k >= 0 {
+			if sl, ok := args[1].(Term); ok && sl.Sort == SSlice {
+				loc := r.v.elemLoc(SlArr(sl), Add(SlOff(sl), IntLit(int64(k))), tAny)
+				v := r.v.readLoc(st, nil, loc).(Term)
+				wrapped = mk(SInt, "(ite ((_ is VOther) %s) (vpay %s) 0)", v.S, v.S)
+			}
+		}
+	} else {
+		r.note("fmt.Errorf with non-constant format: wrapped error unknown")
+		w := st.freshConst("wrapped", SInt)
+		wrapped = w
+	}
+	if wrapped.S != "" {
+		st.cmds = append(st.cmds, fmt.Sprintf("(assert (forall ((t Int)) (! (= (errIs %s t) (or (= t %s) (errIs %s t))) :pattern ((errIs %s t)))))", e.S, e.S, wrapped.S, e.S))
+	} else {
+		st.cmds = append(st.cmds, fmt.Sprintf("(assert (forall ((t Int)) (! (= (errIs %s t) (= t %s)) :pattern ((errIs %s t)))))", e.S, e.S, e.S))
+	}
+	return e
+}
+
+// evalOrFresh evaluates a ghost definition; when it mentions a name that is not
+// bound on this path (e.g. the ghost result of a callee that was not called) the
+// ghost is left unconstrained.
+func (r *funcRun) evalOrFresh(c *evalCtx, g GhostOut) (out tval) {
+	defer func() {
+		if e := recover(); e != nil {
+			if se, ok := e.(specErr); ok && strings.Contains(se.msg, "unknown identifier") {
+				t := c.parseType(g.Type)
+				out = tval{r.v.freshValue(c.st, "gh_"+g.Name, t), t}
+				return
+			}
+			panic(e)
+		}
+	}()
+	return c.evalStr(g.Expr)
+}
+
+// structLeaves expands "Struct.field" naming a struct-typed field into its leaf components.
+func (v *Verifier) structLeaves(name string) []string {
+	parts := strings.Split(name, ".")
+	if len(parts) < 2 {
+		return nil
+	}
+	tv, err := types.Eval(v.prog.Fset, v.pkg.Pkg, 0, parts[0])
+	if err != nil || tv.Type == nil {
+		return nil
+	}
+	t := tv.Type
+	for _, f := range parts[1:] {
+		found := false
+		for _, fi := range structFieldsOf(t) {
+			if fi.Name == f {
+				t, found = fi.Type, true
+				break
+			}
+		}
+		if !found {
+			return nil
+		}
+	}
+	if classify(t) != kStruct || v.opaqueStruct(t) {
+		return nil
+	}
+	return v.leafComps(name, t)
 }
